@@ -191,7 +191,7 @@ type RunConfig struct {
 	// ByRef: the transport is in-process and hands the receiver the very
 	// message object the sender produced (entries, snapshot and context share
 	// memory with the sender's log) instead of unmarshalling a copy; a
-	// duplicate delivers the same object again.
+	// duplicate is a retransmission and is decoded anew.
 	ByRef bool `json:"by_ref,omitempty"`
 }
 
